@@ -128,6 +128,19 @@ func (i *interpreter) equals(t types.Type, x, y value) value {
 		return x == y.(*value)
 	case structure:
 		y := y.(structure)
+		if n, ok := t.(*types.Named); ok && n.Obj().Pkg() != nil && n.Obj().Pkg().Path() == "reflect" && n.Obj().Name() == "Value" {
+			// the emulated reflect.Value: only comparison with the zero Value is meaningful
+			zero := func(v structure) bool {
+				if rt, ok := v[0].(rtype); ok {
+					return rt.t == nil
+				}
+				return true
+			}
+			if zero(x) || zero(y) {
+				return zero(x) == zero(y)
+			}
+			return false
+		}
 		tStruct := t.Underlying().(*types.Struct)
 		var acc value = true
 		for k, n := 0, tStruct.NumFields(); k < n; k++ {
